@@ -2,12 +2,14 @@ use crate::common::*;
 pub mod varint;
 pub mod sqlprobe;
 pub mod sql_where;
+pub mod budget;
 
 pub fn run(engine: &str, ctx: &Ctx) -> Report {
     match engine {
         "varint" => varint::run(ctx),
         "sqlprobe" => sqlprobe::run(ctx),
         "sql_where" => sql_where::run(ctx),
+        "budget" => budget::run(ctx),
         _ => {
             eprintln!("unknown engine {engine}");
             std::process::exit(2);
